@@ -39,6 +39,8 @@ import (
 	"github.com/haqq-network/haqq/contracts"
 	haqqtypes "github.com/haqq-network/haqq/types"
 	coinomicstypes "github.com/haqq-network/haqq/x/coinomics/types"
+	erc20types "github.com/haqq-network/haqq/x/erc20/types"
+	evmtypes "github.com/haqq-network/haqq/x/evm/types"
 	lvtypes "github.com/haqq-network/haqq/x/liquidvesting/types"
 	ucdaotypes "github.com/haqq-network/haqq/x/ucdao/types"
 	vestingtypes "github.com/haqq-network/haqq/x/vesting/types"
@@ -58,7 +60,21 @@ type HBlock struct {
 	Proposer   int   `json:"proposer"`
 	Absent     []int `json:"absent,omitempty"`
 	DoubleSign int   `json:"double_sign,omitempty"` // 1-based validator index, 0 = none
+	Gov        []HTx `json:"gov,omitempty"`         // governance-only set-up applied through the keeper at the start of the block (stands for a passed proposal)
 	Txs        []HTx `json:"txs,omitempty"`
+}
+
+// GovOp is a resolved governance operation (concrete addresses), applied identically on every replica.
+type GovOp struct {
+	K      string   `json:"k"` // register-erc20 | toggle-pair | set-precompiles
+	Addr   string   `json:"addr,omitempty"`
+	Active []string `json:"active,omitempty"`
+}
+
+// BlockFeed is what replica A hands to the other replicas for one block.
+type BlockFeed struct {
+	Gov []GovOp  `json:"gov"`
+	Txs [][]byte `json:"txs"`
 }
 
 type History struct {
@@ -73,8 +89,10 @@ var hKinds = []string{
 	"send", "send", "delegate", "delegate", "delegate", "undelegate", "undelegate", "redelegate", "withdraw", "setwithdraw",
 	"gov-submit", "gov-deposit", "gov-vote", "vest-create", "vest-create", "vest-clawback", "lv-liquidate", "lv-redeem",
 	"dao-fund", "dao-transfer", "eth-send", "eth-create", "eth-call", "eth-call", "eth-delegate", "eth-withdraw", "eth-prog",
-	"bad-nonce", "low-fee", "unjail",
+	"bad-nonce", "low-fee", "unjail", "eth-fanout", "erc20-deploy", "erc20-mint", "erc20-transfer", "erc20-transfer", "erc20-convert",
 }
+
+var hGovKinds = []string{"register-erc20", "register-erc20", "toggle-pair", "precompile-off", "precompile-swap"}
 
 var hDts = []int64{1, 1, 2, 5, 5, 6, 30, 61, 61, 130, 3600, 86400, 400 * 86400}
 
@@ -103,6 +121,10 @@ func genHistory(t *rapid.T, minBlocks, maxBlocks int, kinds []string) History {
 		for j := 0; j < ntx; j++ {
 			b.Txs = append(b.Txs, genHTx(t, kinds))
 		}
+		if rapid.IntRange(0, 4).Draw(t, "gov") == 0 {
+			g := genHTx(t, hGovKinds)
+			b.Gov = append(b.Gov, g)
+		}
 		h.Blocks = append(h.Blocks, b)
 	}
 	// scenario seeds: chains of intents that only make sense in order (the generator would rarely line them up)
@@ -124,6 +146,24 @@ func genHistory(t *rapid.T, minBlocks, maxBlocks int, kinds []string) History {
 		h.Blocks[i+1].Txs = append([]HTx{{K: "lv-liquidate", A: (a + 1) % hUsers, N: slot * 2, V: rapid.IntRange(0, 3).Draw(t, "liquid-frac")}}, h.Blocks[i+1].Txs...)
 		h.Blocks[i+2].Txs = append([]HTx{{K: "lv-redeem", A: (a + 1) % hUsers, B: rapid.IntRange(0, hUsers-1).Draw(t, "liquid-to"), N: 0, V: rapid.IntRange(0, 2).Draw(t, "liquid-rfrac")}}, h.Blocks[i+2].Txs...)
 	}
+	if has("erc20-deploy") && nb >= 4 && rapid.IntRange(0, 2).Draw(t, "erc20-scenario") == 0 {
+		// a token that is used before it is registered, then registered, then sent to the module address
+		i := rapid.IntRange(0, nb-4).Draw(t, "erc20-at")
+		a := rapid.IntRange(0, hUsers-1).Draw(t, "erc20-a")
+		h.Blocks[i].Txs = append([]HTx{{K: "erc20-deploy", A: a}}, h.Blocks[i].Txs...)
+		h.Blocks[i+1].Txs = append([]HTx{{K: "erc20-mint", A: a, B: a, Amt: "5000"}, {K: "erc20-transfer", A: a, B: (a + 1) % hUsers, V: 0, Amt: "7"}}, h.Blocks[i+1].Txs...)
+		h.Blocks[i+2].Gov = append(h.Blocks[i+2].Gov, HTx{K: "register-erc20"})
+		h.Blocks[i+3].Txs = append([]HTx{{K: "erc20-transfer", A: a, V: 1, Amt: "100"}, {K: "erc20-convert", A: a, N: 1, Amt: "30"}}, h.Blocks[i+3].Txs...)
+	}
+	if has("eth-delegate") && nb >= 4 && rapid.IntRange(0, 2).Draw(t, "precompile-scenario") == 0 {
+		// EVM activity, then the set of active precompiles changes twice with the same size, then a swapped one is called
+		i := rapid.IntRange(0, nb-4).Draw(t, "pc-at")
+		a := rapid.IntRange(0, hUsers-1).Draw(t, "pc-a")
+		h.Blocks[i].Txs = append([]HTx{{K: "eth-send", A: a, B: (a + 1) % hUsers, Amt: "1", N: 1}}, h.Blocks[i].Txs...)
+		h.Blocks[i+1].Gov = append(h.Blocks[i+1].Gov, HTx{K: "precompile-off", N: 2})
+		h.Blocks[i+2].Gov = append(h.Blocks[i+2].Gov, HTx{K: "precompile-swap", N: rapid.IntRange(0, 4).Draw(t, "pc-swap")})
+		h.Blocks[i+3].Txs = append([]HTx{{K: "eth-delegate", A: a, V: 0, Amt: "1000", N: 1}, {K: "eth-withdraw", A: a, V: 0, N: 1}}, h.Blocks[i+3].Txs...)
+	}
 	if has("gov-vote") && nb >= 2 && rapid.IntRange(0, 1).Draw(t, "gov-scenario") == 0 {
 		i := rapid.IntRange(0, nb-2).Draw(t, "gov-at")
 		h.Blocks[i].Txs = append([]HTx{{K: "gov-submit", A: rapid.IntRange(0, hUsers-1).Draw(t, "gov-a"), Amt: "1000000", N: 1}}, h.Blocks[i].Txs...)
@@ -142,7 +182,8 @@ func hUsersAccts() []chain.Account { return chain.Accts("hu", hUsers) }
 func hVestAccts() []chain.Account { return chain.Accts("hvest", 3) }
 
 func hOpts(h History) chain.Opts {
-	o := chain.Opts{NumVals: h.NumVals, Accounts: append(hUsersAccts(), hVestAccts()...), ValPower: 100}
+	o := chain.Opts{NumVals: h.NumVals, Accounts: append(hUsersAccts(), hVestAccts()...), ValPower: 100,
+		ExtraCoins: sdk.NewCoins(sdk.NewCoin("uxmpl", sdkmath.NewInt(1_000_000_000_000)))}
 	if h.Coinomics {
 		p := coinomicstypes.DefaultParams()
 		g := coinomicstypes.NewGenesisState(p, sdk.NewCoin(chain.Denom, sdkmath.NewIntWithDecimal(1, 29)))
@@ -222,6 +263,13 @@ type hStats struct {
 	Slashes   int
 	EvmMulti  int // successful EVM txs that touched >= 2 accounts / slots
 	Contracts []common.Address
+	Tokens    []hToken
+	GovOK     map[string]int
+}
+
+type hToken struct {
+	Addr  common.Address
+	Owner int
 }
 
 type hRunner struct {
@@ -232,7 +280,7 @@ type hRunner struct {
 }
 
 func newHRunner(n *chain.Node) *hRunner {
-	return &hRunner{n: n, users: hUsersAccts(), st: &hStats{OK: map[string]int{}, Fail: map[string]int{}}}
+	return &hRunner{n: n, users: hUsersAccts(), st: &hStats{OK: map[string]int{}, Fail: map[string]int{}, GovOK: map[string]int{}}}
 }
 
 func milli(s string) *big.Int {
@@ -267,6 +315,20 @@ func storageRuntime() []byte {
 	a.Op(0x00)
 	return a.Bytes()
 }
+
+// fanoutRuntime pays 1 wei to each of the four addresses base, base+1, base+2, base+3 (base = calldata word 0).
+func fanoutRuntime() []byte {
+	a := evmasm.New()
+	for i := uint64(0); i < 4; i++ {
+		a.Push(0).Push(0).Push(0).Push(0).Push(1)
+		a.Push(0).Op(0x35).Push(i).Op(0x01) // CALLDATALOAD(0) + i
+		a.Op(0x5a, 0xf1, 0x50)              // GAS CALL POP
+	}
+	a.Op(0x00)
+	return a.Bytes()
+}
+
+var hFanoutAddr = evmasm.FrameAddr(9)
 
 // buildTx turns an intent into signed tx bytes (nil = nothing to do in this state).
 func (r *hRunner) buildTx(x HTx) []byte {
@@ -487,6 +549,46 @@ func (r *hRunner) buildTx(x HTx) []byte {
 			to = evmasm.FrameAddr(2)
 		}
 		return eth(&to, big.NewInt(10), nil, 400000)
+	case "eth-fanout":
+		// four brand-new low addresses that share their first 16 bytes (the base moves with the sender's nonce)
+		base := new(big.Int).SetUint64(0x10000*(seq+1) + uint64(x.A)*0x100 + uint64(x.N)*8)
+		to := hFanoutAddr
+		return eth(&to, big.NewInt(4), common.BigToHash(base).Bytes(), 400000)
+	case "erc20-deploy":
+		ctor, err := erc20ABI().Pack("", fmt.Sprintf("Token%d", len(r.st.Tokens)), fmt.Sprintf("TK%d", len(r.st.Tokens)), uint8(18))
+		must(err)
+		return eth(nil, big.NewInt(0), append(append([]byte{}, contracts.ERC20MinterBurnerDecimalsContract.Bin...), ctor...), 6000000)
+	case "erc20-mint", "erc20-transfer", "erc20-convert":
+		if len(r.st.Tokens) == 0 {
+			return nil
+		}
+		tok := r.st.Tokens[x.N%len(r.st.Tokens)]
+		switch x.K {
+		case "erc20-mint":
+			data, err := erc20ABI().Pack("mint", B.Hex, amt)
+			must(err)
+			owner := r.users[tok.Owner]
+			_, oseq := txb.AccInfo(ctx, app, owner.Addr)
+			return txb.EthTx(owner, txb.Eth{Type: 0, ChainID: big.NewInt(11235), Nonce: oseq, To: &tok.Addr, Value: big.NewInt(0), Gas: 300000, GasPrice: price, Data: data})
+		case "erc20-transfer":
+			dest := B.Hex
+			if x.V%2 == 1 {
+				dest = common.BytesToAddress(authtypes.NewModuleAddress("erc20").Bytes()) // conversion by transfer to the module
+			}
+			data, err := erc20ABI().Pack("transfer", dest, new(big.Int).Quo(amt, big.NewInt(1000)))
+			must(err)
+			return eth(&tok.Addr, big.NewInt(0), data, 400000)
+		default:
+			pair, found := app.Erc20Keeper.GetTokenPair(ctx, app.Erc20Keeper.GetERC20Map(ctx, tok.Addr))
+			if !found {
+				return nil
+			}
+			q := sdkmath.NewIntFromBigInt(new(big.Int).Quo(amt, big.NewInt(1000)))
+			if x.N%2 == 1 {
+				return cosmos(A, 3000000, erc20types.NewMsgConvertERC20(q, A.Addr, tok.Addr, A.Hex))
+			}
+			return cosmos(A, 3000000, erc20types.NewMsgConvertCoin(sdk.NewCoin(pair.Denom, q), A.Hex, A.Addr))
+		}
 	case "bad-nonce":
 		to := B.Hex
 		return txb.EthTx(A, txb.Eth{Type: 0, ChainID: big.NewInt(11235), Nonce: seq + 3, To: &to, Value: amt, Gas: 21000, GasPrice: price})
@@ -513,6 +615,91 @@ func hProg() evmasm.Program {
 	return evmasm.Program{Frames: []evmasm.Frame{entry(1), leaf(false), entry(3), leaf(true)}}
 }
 
+// resolveGov turns a governance intent into a concrete operation against the current state (nil = not applicable).
+func (r *hRunner) resolveGov(x HTx) *GovOp {
+	ctx := r.n.Ctx()
+	app := r.n.App
+	switch x.K {
+	case "register-erc20":
+		for k := 0; k < len(r.st.Tokens); k++ {
+			t := r.st.Tokens[(x.N+k)%len(r.st.Tokens)]
+			if !app.Erc20Keeper.IsERC20Registered(ctx, t.Addr) {
+				return &GovOp{K: "register-erc20", Addr: t.Addr.Hex()}
+			}
+		}
+	case "toggle-pair":
+		pairs := app.Erc20Keeper.GetTokenPairs(ctx)
+		if len(pairs) > 0 {
+			return &GovOp{K: "toggle-pair", Addr: pairs[x.N%len(pairs)].Erc20Address}
+		}
+	case "precompile-off", "precompile-swap":
+		all := evmtypes.AvailableEVMExtensions
+		active := app.EvmKeeper.GetParams(ctx).ActivePrecompiles
+		if x.K == "precompile-off" {
+			// switch one off: the staking precompile (index 2 in the list) unless it is already off
+			var out []string
+			off := all[(2+x.N%1)%len(all)]
+			for _, a := range active {
+				if a != off {
+					out = append(out, a)
+				}
+			}
+			return &GovOp{K: "set-precompiles", Active: out}
+		}
+		// swap: re-enable everything that is off and switch another one off instead (same number of active ones)
+		isActive := map[string]bool{}
+		for _, a := range active {
+			isActive[a] = true
+		}
+		nOff := len(all) - len(active)
+		if nOff == 0 {
+			return nil
+		}
+		var candidates []string
+		for _, a := range all {
+			if isActive[a] {
+				candidates = append(candidates, a)
+			}
+		}
+		newOff := map[string]bool{}
+		for k := 0; k < nOff && k < len(candidates); k++ {
+			newOff[candidates[(x.N+k)%len(candidates)]] = true
+		}
+		var out []string
+		for _, a := range all {
+			if !newOff[a] {
+				out = append(out, a)
+			}
+		}
+		return &GovOp{K: "set-precompiles", Active: out}
+	}
+	return nil
+}
+
+// applyGov executes a resolved governance operation through the public keeper method, as the passed proposal would.
+func (r *hRunner) applyGov(g GovOp) {
+	ctx := r.n.Ctx()
+	app := r.n.App
+	cctx, write := ctx.CacheContext()
+	var err error
+	switch g.K {
+	case "register-erc20":
+		_, err = app.Erc20Keeper.RegisterERC20(cctx, common.HexToAddress(g.Addr))
+	case "toggle-pair":
+		_, err = app.Erc20Keeper.ToggleConversion(cctx, g.Addr)
+	case "set-precompiles":
+		p := app.EvmKeeper.GetParams(cctx)
+		p.ActivePrecompiles = g.Active
+		err = app.EvmKeeper.SetParams(cctx, p)
+	}
+	if err == nil {
+		write()
+		r.st.GovOK[g.K]++
+	} else if os.Getenv("VERIF_DEBUG") != "" {
+		fmt.Printf("DEBUG gov %+v failed: %v\n", g, err)
+	}
+}
+
 // evidenceFor builds duplicate-vote evidence against validator index i of the current set.
 func (r *hRunner) evidenceFor(i int) []abci.Misbehavior {
 	n := r.n
@@ -533,7 +720,7 @@ func (r *hRunner) evidenceFor(i int) []abci.Misbehavior {
 
 // RunBlock executes one block of the history on the node. If feed != nil the given tx bytes are delivered instead of
 // building them from the intents (replica mode). It returns the trace and the bytes that were delivered.
-func (r *hRunner) RunBlock(b HBlock, feed [][]byte) (BlockTrace, [][]byte) {
+func (r *hRunner) RunBlock(b HBlock, feed *BlockFeed) (BlockTrace, BlockFeed) {
 	n := r.n
 	in := chain.BlockIn{Dt: time.Duration(b.Dt) * time.Second, Proposer: b.Proposer, Absent: b.Absent}
 	if b.DoubleSign > 0 {
@@ -545,6 +732,7 @@ func (r *hRunner) RunBlock(b HBlock, feed [][]byte) (BlockTrace, [][]byte) {
 		for i, code := range hProg().Compile() {
 			n.InstallCode(evmasm.FrameAddr(i), code)
 		}
+		n.InstallCode(hFanoutAddr, fanoutRuntime())
 	}
 	for _, e := range bb.Events {
 		if e.Type == "slash" {
@@ -552,21 +740,41 @@ func (r *hRunner) RunBlock(b HBlock, feed [][]byte) (BlockTrace, [][]byte) {
 		}
 	}
 	var delivered [][]byte
+	var okFlags []bool
+	var govDone []GovOp
+	if feed != nil {
+		for _, g := range feed.Gov {
+			r.applyGov(g)
+		}
+		govDone = feed.Gov
+	} else {
+		for _, x := range b.Gov {
+			if g := r.resolveGov(x); g != nil {
+				r.applyGov(*g)
+				govDone = append(govDone, *g)
+			}
+		}
+	}
 	deliver := func(k string, bz []byte) {
 		res := n.DeliverTx(bz)
 		delivered = append(delivered, bz)
 		tr.Txs = append(tr.Txs, digestTx(res))
-		if res.Code == 0 {
+		vmErr := ""
+		if res.Code == 0 && len(k) > 3 && (k[:3] == "eth" || k[:3] == "erc") {
+			vmErr, _ = decodeEthResponse(res.Data)
+		}
+		okFlags = append(okFlags, res.Code == 0 && vmErr == "")
+		if res.Code == 0 && vmErr == "" {
 			r.st.OK[k]++
 		} else {
 			r.st.Fail[k]++
 			if os.Getenv("VERIF_DEBUG") != "" {
-				fmt.Printf("DEBUG height %d tx %s failed: code %d %s\n", n.Header.Height, k, res.Code, trunc(res.Log))
+				fmt.Printf("DEBUG height %d tx %s failed: code %d %s %s\n", n.Header.Height, k, res.Code, vmErr, trunc(res.Log))
 			}
 		}
 	}
 	if feed != nil {
-		for _, bz := range feed {
+		for _, bz := range feed.Txs {
 			deliver("fed", bz)
 		}
 	} else {
@@ -588,16 +796,22 @@ func (r *hRunner) RunBlock(b HBlock, feed [][]byte) (BlockTrace, [][]byte) {
 			}
 			var preSeq uint64
 			var sender chain.Account
-			if x.K == "eth-create" {
+			if x.K == "eth-create" || x.K == "erc20-deploy" {
 				sender = r.users[x.A%len(r.users)]
 				_, preSeq = txb.AccInfo(n.Ctx(), n.App, sender.Addr)
 			}
 			before := len(tr.Txs)
 			deliver(x.K, bz)
-			if (x.K == "eth-create") && tr.Txs[before].Code == 0 {
+			if (x.K == "eth-create") && okFlags[before] {
 				r.st.Contracts = append(r.st.Contracts, ethcrypto.CreateAddress(sender.Hex, preSeq))
 			}
-			if (x.K == "eth-call" || x.K == "eth-prog") && tr.Txs[before].Code == 0 {
+			if x.K == "erc20-deploy" && okFlags[before] {
+				r.st.Tokens = append(r.st.Tokens, hToken{Addr: ethcrypto.CreateAddress(sender.Hex, preSeq), Owner: x.A % len(r.users)})
+			}
+			if x.K == "eth-fanout" && okFlags[before] {
+				r.st.EvmMulti++
+			}
+			if (x.K == "eth-call" || x.K == "eth-prog") && okFlags[before] {
 				r.st.EvmMulti++
 			}
 		}
@@ -609,7 +823,7 @@ func (r *hRunner) RunBlock(b HBlock, feed [][]byte) (BlockTrace, [][]byte) {
 		pk, _ := u.PubKey.Marshal()
 		tr.ValUpds += fmt.Sprintf("%x:%d;", pk, u.Power)
 	}
-	return tr, delivered
+	return tr, BlockFeed{Gov: govDone, Txs: delivered}
 }
 
 func (t BlockTrace) Equal(o BlockTrace) (bool, string) {
